@@ -83,7 +83,8 @@ def run(tier, seed):
     # (ii) the exact expectation of the real code for the same instance
     cases = [("sage_joint", "sage", "joint", 2, 2, 3), ("sage_product", "sage", "product", 2, 1, 3),
              ("pfi_joint", "pfi", "joint", 3, 2, 3), ("pfi_product", "pfi", "product", 2, 2, 2),
-             ("batch_m3", "batch", "joint", 2, 1, 3), ("batch_m2n2", "batch", "joint", 2, 2, 2)]
+             ("batch_m3", "batch", "joint", 2, 1, 3), ("batch_m2n2", "batch", "joint", 2, 2, 2),
+             ("batch_prod", "batch", "product", 2, 1, 3)]
     if not quick:
         cases += [("sage_joint3", "sage", "joint", 3, 1, 3), ("sage_product3", "sage", "product", 3, 1, 2)]
     for (cfg, mode, strat, d, n, m) in cases:
@@ -96,13 +97,15 @@ def run(tier, seed):
         ctx.transitions += 1
         rec = r.tagged("expectation")[0]
         target = [qpair(v) for v in rec[6]]
-        entries = [(mode, None)] if mode != "batch" else [("batch", "many"), ("batch", "original"), ("batch", "interval")] + \
+        entries = [(mode, None)] if mode != "batch" else [("batch", "many_product")] if strat == "product" else \
+            [("batch", "many"), ("batch", "original"), ("batch", "interval")] + \
             ([("batch", "original_product"), ("batch", "original_foreign")] if cfg == "batch_m2n2" or not quick else [])
         for (_, entry) in entries:
             if mode == "batch":
                 exp, tot, nruns, kinds = XP.batch(entry, d, n, m)
                 ok = all(abs(float(a) - float(b)) <= 1e-9 * (1 + abs(float(b))) for a, b in zip(exp, target))
-                what = "IntervalSage.explain_one (recomputing call)" if entry == "interval" else \
+                what = "BatchSage.explain_many (explainer built with a product imputer)" if entry == "many_product" else \
+                    "IntervalSage.explain_one (recomputing call)" if entry == "interval" else \
                     "BatchSage.explain_many_original (explainer built with a product imputer)" if entry == "original_product" else \
                     "BatchSage.explain_many_original (storage holds other rows than the data set)" if entry == "original_foreign" else \
                     "BatchSage.explain_many%s" % ("_original" if entry == "original" else "")
